@@ -105,6 +105,12 @@ def gen_config(rng, sp, profile):
     elif action == "list_benches":
         cfg.run_mode = "list"
         it.action = "list"
+    if action != "bench" and rng.random() < profile.get("p_timer_flag", 0.0):
+        # the timer choice must not change what a test run or a listing selects (coarse virtual counters, tiny budgets)
+        if rng.random() < 0.6:
+            cli += ["--timer", "tsc"]
+        else:
+            env["DIVAN_TIMER"] = "tsc"
     cli += ["--color", "never"] if rng.random() < 0.3 else []
     # filters
     if rng.random() < profile.get("p_filters", 0.0):
